@@ -27,6 +27,7 @@ pub enum Policy {
     Forced { handoffs: Vec<(u64, usize)> },
 }
 
+pub const DECISION_BUDGET_PAYLOAD: &str = "frsim-budget-scheduler-decisions";
 pub const SITE_OP_BOUNDARY: u32 = 100;
 pub const SITE_FINISH: u32 = 101;
 
@@ -158,7 +159,16 @@ impl Sched {
             g.stats.overlap_decisions += 1;
         }
         if g.decision > g.max_decisions {
+            // A run far beyond any legitimate length: some simulated thread is spinning. Unwind
+            // the operation in progress (its result becomes a PANIC value, which the oracle then
+            // compares with the solo result) instead of hanging the check. The baton stays with
+            // this thread, so the run remains a legal schedule.
             g.budget_exhausted = true;
+            if site < SITE_OP_BOUNDARY {
+                // only inside library code (the harness's own seams are not unwound)
+                drop(g);
+                std::panic::panic_any(DECISION_BUDGET_PAYLOAD);
+            }
         }
         let switch_to: Option<usize> = match g.policy.clone() {
             Policy::Forced { handoffs } => handoffs
